@@ -31,6 +31,18 @@ Theorem C11_P_monotone_in_future : forall Po Ph Pf1 Pf2, 0 <= Po <= 1 -> 0 <= Ph
 Proof. exact P_monotone_in_future. Qed.
 Print Assumptions C11_P_monotone_in_future.
 
+(** ... and so does the COUNT of values set to the bound, round(n * P) with Python's round-half-to-even, which is
+    itself monotone (ties included) *)
+Theorem C11_round_monotone : forall q1 q2, q1 <= q2 -> (QL.round_half_even q1 <= QL.round_half_even q2)%Z.
+Proof. exact round_half_even_monotone. Qed.
+Print Assumptions C11_round_monotone.
+
+Theorem C11_count_monotone_in_future : forall (n : Z) Po Ph Pf1 Pf2, (0 <= n)%Z -> 0 <= Po <= 1 -> 0 <= Ph <= 1 -> Pf1 <= Pf2 ->
+  (QL.round_half_even (inject_Z n * step6_P_obs_future Po Ph Pf1) <=
+   QL.round_half_even (inject_Z n * step6_P_obs_future Po Ph Pf2))%Z.
+Proof. exact count_monotone_in_future. Qed.
+Print Assumptions C11_count_monotone_in_future.
+
 Theorem C11_isclose_is_equality_on_grids : forall k1 k2 n, (0 < n <= 50000)%Z -> (0 <= k2 <= n)%Z -> k1 <> k2 ->
   QL.isclose (inject_Z k1 / inject_Z n) (inject_Z k2 / inject_Z n) = false.
 Proof. exact isclose_grid. Qed.
